@@ -32,6 +32,9 @@ pub fn check_pair(p: &Pair, obs: &Obs) -> CheckResult {
     let verdict = mnemonic::matches(def, cand);
     let shares = !cand.is_empty() && cand[0].eq_ignore_ascii_case(&def[0]);
     obs.nontrivial_if(shares, p);
+    let (ds, cs) = (mnemonic::split_suffix(def).1, mnemonic::split_suffix(cand).1);
+    obs.label_if(ds.len() >= 4 && cs.len() >= 4, "both suffixes of four or more digits");
+    obs.label_if(ds.len() >= 9 || cs.len() >= 9, "a suffix of nine or more digits");
     match verdict {
         Verdict::Match => obs.label("positive"),
         Verdict::NoMatch => obs.label(if shares { "negative sharing a prefix" } else { "negative" }),
@@ -126,6 +129,11 @@ enum SuffixVariant {
     DefinedMinus,
     ZeroDefined,
     Random(u16),
+    /// the defined suffix with the digit at a relative position replaced
+    FlipDigit(u16, u8),
+    /// the defined suffix without its first digit / with a further leading digit
+    DropFirst,
+    Prepend(u8),
 }
 
 fn def_strategy() -> impl Strategy<Value = String> {
@@ -137,10 +145,13 @@ fn def_strategy() -> impl Strategy<Value = String> {
             2 => (1u32..4).prop_map(Some),
             2 => (0u32..130).prop_map(Some),
             1 => (0u32..1000).prop_map(Some),
-        ],
+        ]
+        .prop_map(|s| s.map(|n| n.to_string()).unwrap_or_default()),
+        // long numeric suffixes (serial-number style names): up to 11 digits fit a 12-character mnemonic
+        prop_oneof![8 => Just(String::new()), 1 => "[1-9][0-9]{3,10}", 1 => "[1-9]0{3,9}[0-9]"],
     )
-        .prop_map(|(u, l, s)| {
-            let s = s.map(|n| n.to_string()).unwrap_or_default();
+        .prop_map(|(u, l, s, long)| {
+            let s = if long.is_empty() { s } else { long };
             let mut alpha = format!("{u}{l}");
             alpha.truncate(12 - s.len());
             format!("{alpha}{s}")
@@ -166,6 +177,9 @@ fn pair_strategy() -> impl Strategy<Value = Pair> {
         1 => Just(SuffixVariant::DefinedMinus),
         1 => Just(SuffixVariant::ZeroDefined),
         1 => (0u16..1000).prop_map(SuffixVariant::Random),
+        2 => (any::<u16>(), 0u8..10).prop_map(|(p, d)| SuffixVariant::FlipDigit(p, d)),
+        1 => Just(SuffixVariant::DropFirst),
+        1 => (1u8..10).prop_map(SuffixVariant::Prepend),
     ];
     (def_strategy(), alpha_var, suffix_var, any::<u16>(), 0u8..4).prop_map(|(def, av, sv, mask, casemode)| {
         let (da, ds) = mnemonic::split_suffix(def.as_bytes());
@@ -209,6 +223,16 @@ fn pair_strategy() -> impl Strategy<Value = Pair> {
             SuffixVariant::DefinedMinus => dn.saturating_sub(1).to_string(),
             SuffixVariant::ZeroDefined => format!("0{}", String::from_utf8_lossy(ds)),
             SuffixVariant::Random(n) => n.to_string(),
+            SuffixVariant::FlipDigit(p, d) => {
+                let mut v = ds.to_vec();
+                if !v.is_empty() {
+                    let i = (p as usize * v.len()) >> 16;
+                    v[i] = b'0' + d;
+                }
+                String::from_utf8_lossy(&v).into_owned()
+            }
+            SuffixVariant::DropFirst => String::from_utf8_lossy(ds.get(1..).unwrap_or(&[])).into_owned(),
+            SuffixVariant::Prepend(d) => format!("{d}{}", String::from_utf8_lossy(ds)),
         };
         alpha.truncate(12usize.saturating_sub(suffix.len()));
         let cand = format!("{}{}", String::from_utf8_lossy(&alpha), suffix);
